@@ -465,7 +465,7 @@ def render_item(it, lang, K=None):
     if k == 'bstar':
         return 'b.*'
     if k == 'unnest':
-        t = '%s(%s)' % (it.get('sp', 'UNNEST'), it['e'][lang])
+        t = '%s%s(%s)' % (it.get('sp', 'UNNEST'), it.get('gap', ''), it['e'][lang])      # `UNNEST (x)` is ordinary call syntax
     elif k == 'agg':
         if it.get('star'):
             t = '%s(%s)' % (it['sp'], it.get('startext', '*'))
@@ -575,7 +575,8 @@ def st_select_items(ctx, nmin=1, nmax=5, stars=True, unnest=True, aliases=True, 
             items.append({'k': 'bstar'})
         elif unnest and k == 3 and not have_unnest:
             have_unnest = True
-            items.append({'k': 'unnest', 'e': e_list(ctx), 'sp': d(st.sampled_from(['UNNEST', 'unnest', 'Unnest'] if not ctx.js else ['UNNEST', 'unnest']))})
+            items.append({'k': 'unnest', 'e': e_list(ctx), 'sp': d(st.sampled_from(['UNNEST', 'unnest', 'Unnest'] if not ctx.js else ['UNNEST', 'unnest'])),
+                          'gap': d(st.sampled_from(['', '', '', ' ', '  ', '\t']))})
         else:
             it = {'k': 'expr', 'e': e_any(ctx, hashable=hashable)}
             if aliases and d(st.integers(0, 4)) == 0:
